@@ -89,7 +89,7 @@ func c08Taint(p *ana.Prog, r *ana.Result) *ana.TaintState {
 }
 
 func checkC08(p *ana.Prog, r *ana.Result) {
-	r.Explain("C08 (structural necessary conditions) over all code reachable from the 14 network roots (listener loops, key-exchange handlers, the QUIC packet connections and the three clients), using a forward taint analysis from the network reads (content and length bits, field-based locations, interprocedural to a fixpoint): fatal - no panic / os.Exit / logbase.Fatal is directly control dependent on a condition computed from network data, on the result of a library operation that interprets network data and can fail for it, or on a library result not in the reviewed summary table; pre/bounds - every index, slice and length-precondition obligation on data whose length or index is peer-chosen is discharged by the compiler's bounds-check elimination or by the difference-bound prover from dominating guards; progress - every loop whose cursor walks peer-supplied bytes advances by at least one per iteration; cmsg - the kernel control-message parser is fed only with control data of a receive call; sources - the set of network read call sites found by type equals the modelled set; the PacketConn handed to quic-go never returns a content-dependent error (quic-go closes the transport on any non-temporary ReadFrom error).")
+	r.Explain("C08 (structural necessary conditions) over all code reachable from the 14 network roots (listener loops, key-exchange handlers, the QUIC packet connections and the three clients), using a forward taint analysis from the network reads (content and length bits, field-based locations, interprocedural to a fixpoint): fatal - no panic / os.Exit / logbase.Fatal is directly control dependent on a condition computed from network data, on the result of a library operation that interprets network data and can fail for it, or on a library result not in the reviewed summary table; pre/bounds - every index, slice and length-precondition obligation on data whose length or index is peer-chosen is discharged by the compiler's bounds-check elimination or by the difference-bound prover from dominating guards; progress - every loop whose cursor walks peer-supplied bytes advances by at least one per iteration; cmsg - the kernel control-message parser is fed only with control data of a receive call; sources - the set of network read call sites found by type equals the modelled set; the PacketConn handed to quic-go never returns a content-dependent error (quic-go closes the transport on any non-temporary ReadFrom error). recv-buffer - at every datagram read inside a loop both buffer arguments have full capacity on every path (a buffer left cut to the previous datagram truncates the next one for ever); accept - the accept loops contain no blocking channel operation.")
 	r.Undecided("errors assumed infallible (listed as assumptions), panics inside third-party decoders (gopacket, slayers, quic-go, crypto/tls), nil-interface calls (daemon connector), memory exhaustion, slow-loris on the key-exchange handlers, that the next well-formed request is answered beyond the absence of fatal sinks and stalled loops")
 	for _, row := range [][2]map[string]string{{assumedInfallible, interpretClass}} {
 		for k, v := range row[0] {
